@@ -74,6 +74,7 @@ type Thread struct {
 	mailbox Value
 	hasMail bool
 	yielded bool
+	preempt uint8 // PreemptAtSync: 0 = decide at the next lock operation, 1 = must yield first, 2 = go on, 3 = yielded, go on when rescheduled
 }
 
 func (t *Thread) top() *Frame { return t.frames[len(t.frames)-1] }
